@@ -288,6 +288,13 @@ func (in *Interp) strToBytes(s *Term) Value {
 		}
 		return out
 	}
+	if us, ok := in.unitParts(s); ok {
+		out := make([]Value, len(us))
+		for i, b := range us {
+			out[i] = b
+		}
+		return out
+	}
 	return SymBytes{s}
 }
 
@@ -359,7 +366,32 @@ func (in *Interp) convert(from, to types.Type, v Value) Value {
 		if b, ok := under(sl.Elem()).(*types.Basic); ok && b.Kind() == types.Int32 {
 			s := v.(*Term)
 			if !s.IsConst() {
-				panic(in.abort("[]rune(symbolic string)"))
+				us, ok := in.unitParts(s)
+				if !ok {
+					panic(in.abort("[]rune(symbolic string of unknown length)"))
+				}
+				pkg := in.E.Prog.ImportedPackage("unicode/utf8")
+				if pkg == nil {
+					panic(in.abort("unicode/utf8 not loaded"))
+				}
+				dec := pkg.Func("DecodeRuneInString")
+				var out []Value
+				for i := 0; i < len(us); {
+					var parts []*Term
+					for _, b := range us[i:] {
+						parts = append(parts, in.byteToStr(b))
+					}
+					saved := in.curFrame
+					r := in.callFn(dec, []Value{tb.Concat(parts...)}, nil).(Tuple)
+					in.curFrame = saved
+					out = append(out, r[0])
+					n := in.concreteInt(r[1].(*Term), "rune size")
+					if n <= 0 {
+						n = 1
+					}
+					i += n
+				}
+				return out
 			}
 			var out []Value
 			for _, r := range s.S {
@@ -434,8 +466,41 @@ func (in *Interp) index(x Value, idx *Term, it types.Type) Value {
 	panic(in.abort("Index on %T", x))
 }
 
+// unitParts decomposes a string term into single-byte terms when every part has a syntactically
+// known length (constant text and single symbolic bytes): the byte-vector view of a string.
+func (in *Interp) unitParts(s *Term) ([]*Term, bool) {
+	parts := []*Term{s}
+	if s.Op == "str.++" {
+		parts = s.Args
+	}
+	var out []*Term
+	for _, p := range parts {
+		switch {
+		case p.IsConst():
+			for i := 0; i < len(p.S); i++ {
+				out = append(out, in.tb.BV(8, uint64(p.S[i])))
+			}
+		case p.Op == "str.from_code" && p.Args[0].Op == "bv2nat" && p.Args[0].Args[0].Sort.W == 8:
+			out = append(out, p.Args[0].Args[0])
+		default:
+			return nil, false
+		}
+	}
+	return out, true
+}
+
 func (in *Interp) strIndex(s *Term, idx *Term, it types.Type) *Term {
 	tb := in.tb
+	if !s.IsConst() && idx.IsConst() {
+		if us, ok := in.unitParts(s); ok {
+			_, signed, _ := intInfo(it)
+			v := int64(tb.Resize(idx, 64, signed).U)
+			if v < 0 || v >= int64(len(us)) {
+				in.goPanicf("index out of range [%d] with length %d (string)", v, len(us))
+			}
+			return us[v]
+		}
+	}
 	w, signed, _ := intInfo(it)
 	if w == 0 {
 		signed = true
@@ -694,6 +759,19 @@ func (in *Interp) strSlice(s *Term, lo, hi *Term) *Term {
 			in.goPanicf("slice bounds out of range [%d:%d] with length %d", l, h, len(s.S))
 		}
 		return tb.Str(s.S[l:h])
+	}
+	if lo.IsConst() && hi.IsConst() {
+		if us, ok := in.unitParts(s); ok {
+			l, h := int64(lo.U), int64(hi.U)
+			if l < 0 || l > h || h > int64(len(us)) {
+				in.goPanicf("slice bounds out of range [%d:%d] with length %d", l, h, len(us))
+			}
+			var parts []*Term
+			for _, b := range us[l:h] {
+				parts = append(parts, in.byteToStr(b))
+			}
+			return tb.Concat(parts...)
+		}
 	}
 	ok := tb.And(tb.CmpBV("bvsge", lo, tb.BV(64, 0)), tb.CmpBV("bvsle", lo, hi), tb.CmpBV("bvsle", hi, n))
 	in.Obligation("panic:slice bounds out of range", ok, "panic")
